@@ -739,6 +739,13 @@ def states_misc(p):
             raise Violation("chessboard state has rank %d > 4" % r)
         rho2 = _dense(S.chessboard(prm, 0.3, -0.2))
         _check_density(rho2, "chessboard with explicit s, t")
+        # explicit s and t (a zero is a value like any other): the Bruss-Peres form sum_k |v_k><v_k| / trace with the four documented vectors
+        a, b, c, d, m, n = prm
+        for sp_, tp_ in ((0.3, -0.2), (0, 0.5), (0.7, 0), (0.0, 0.0)):
+            vs = [[m, 0, sp_, 0, n, 0, 0, 0, 0], [0, a, 0, b, 0, c, 0, 0, 0], [np.conj(n), 0, 0, 0, -np.conj(m), 0, tp_, 0, 0], [0, np.conj(b), 0, -np.conj(a), 0, 0, 0, d, 0]]
+            exp = sum(np.outer(np.conj(v), np.asarray(v)) for v in (np.asarray(v_, dtype=complex) for v_ in vs))
+            exp = exp / np.trace(exp)
+            _close(_dense(S.chessboard(prm, sp_, tp_)), exp, "chessboard(params, s=%r, t=%r) vs the documented vectors" % (sp_, tp_))
     elif kind == "brauer":
         d, pv = p["d"], p["p"]
         M = _dense(S.brauer(d, pv))
